@@ -6,6 +6,8 @@ worker is a real thread, but exactly one holds the baton at any time:
 
   * opcode mode   - a sys.monitoring INSTRUCTION hook on every code object of the catii modules: before
                     every bytecode of catii code the scheduler may (seeded coin) pass the baton on;
+  * bounded mode  - the same hook, but the baton moves exactly at a given small set of instruction steps
+                    (preemption bounding: one or two forced context switches placed systematically over the run);
   * scripted mode - the baton is passed only at task boundaries (take / check / fill), following a
                     list of worker ids taken from a TLC behaviour of CubePool.tla.
 
@@ -29,7 +31,7 @@ class PoolHang(Exception):
 
 
 class Scheduler:
-    def __init__(self, seed=0, switch_prob=0.05, script=None):
+    def __init__(self, seed=0, switch_prob=0.05, script=None, force_at=None):
         self.rnd = random.Random(seed)
         self.p = switch_prob
         self.script = list(script) if script is not None else None
@@ -41,6 +43,7 @@ class Scheduler:
         self.log = []
         self.task_of = {}          # worker -> task index currently running
         self.pools = 0
+        self.force_at = set(force_at) if force_at is not None else None   # bounded preemption: switch exactly at these steps
         self.worker_of = {}      # thread ident -> worker id
 
     # ---- baton ------------------------------------------------------------------------------------
@@ -64,6 +67,11 @@ class Scheduler:
 
     def opcode(self, me):
         self.steps += 1
+        if self.force_at is not None:
+            if self.steps in self.force_at:
+                with self.cond:
+                    self._handover(me, self._pick(me, force_other=True))
+            return
         if self.script is None and self.rnd.random() < self.p:
             with self.cond:
                 self._handover(me, self._pick(me, force_other=True))
